@@ -455,6 +455,11 @@ def analyse(rep):
         rep.check(okd, 'C16.value', FILE, 'compact', src(c)[:80], c.lineno,
                   'compact() deletes %s: besides the parentheses written around identifiers these characters can belong to a value or to the '
                   'caller\'s separator, which info() then no longer finds' % src(d_)[:40], what='compact() deletes only ( and )')
+    for c in ast.walk(cfn):
+        if isinstance(c, ast.Call) and isinstance(c.func, ast.Attribute) and c.func.attr in ('strip', 'lstrip', 'rstrip') and c.args:
+            rep.fail('C16.value', FILE, 'compact', src(c)[:80], c.lineno,
+                     'compact() strips the character set %s from an end of the element string: these characters can be the first or last characters of '
+                     'an identifier or a value (strip()/lstrip() take a set of characters, not a prefix)' % src(c.args[0])[:30])
     from . import c14 as _c14
     cmap = _c14.charmap()
     charset82 = '!"%&\'()*+,-./0123456789:;<=>?ABCDEFGHIJKLMNOPQRSTUVWXYZ_abcdefghijklmnopqrstuvwxyz'
